@@ -56,6 +56,8 @@ pub fn areas() -> Vec<&'static str> {
         "c04",
         "c07",
         "c10",
+        "c11",
+        "c12",
         "c13",
         "c14",
         "c16",
@@ -64,7 +66,6 @@ pub fn areas() -> Vec<&'static str> {
         "c19",
         "c20",
     ]
-    vec!["c17", "c11", "c12"]
 }
 
 /// Decode a hex string.
